@@ -352,3 +352,56 @@ def check_C04(run):
                                                 'destinations that distinguish file from folder symlinks (Windows) are exercised only at L2 with scripted doers',
                                                 'the composition "first run ends in the mirror state" is C01 (PARTIAL there: doer effects validated); here: plan-level theorem + read-back round trips + end-to-end double runs']
     run.assumptions = ['--files-same-time is skip (the default): with overwrite every run re-copies equal files by configuration (theorem C04_same_time_overwrite_recopies)']
+
+
+# ------------------------------------------------------------------ shared: the whole destination half of a sync, model vs CLI
+
+def sync_model_stream(run, n, label='sync-model'):
+    """L4 tie of `syncDest` (the model the theorem C01_mirror_fs is about): generated (source tree, destination tree) pairs, the CLI run
+    folder-to-folder without skips, final destination tree = the model's final file system, node for node (kinds, bytes, mtimes, link texts)."""
+    from .common import X
+    rng = run.rng
+    sb = l4.Sandbox(); sb.place_remote('same')
+    bad = []
+    try:
+        cases = []
+        for i in range(n):
+            base = os.path.join(sb.dir, f'sm{i}'); os.makedirs(base + '/w')
+            M.make_decoys(base)
+            src_ents = M.gen_entries(rng, base, rng.choice([3, 8, 16]), link_prob=0.25, nonutf8=True)
+            dst_ents = M.mutate(rng, base, src_ents) if rng.random() < 0.85 else []
+            l3.make_tree(base + '/S', [('', 'D')] + src_ents)
+            l3.make_tree(base + '/w/D', [('', 'D')] + dst_ents)
+            def tok(e):
+                if e[1] == 'D': return ['D']
+                if e[1] == 'F': return ['F', str(e[3]), X(e[2])]
+                return ['L', X(e[2])]
+            nodes = [('D', 'D')] + [('D/' + e[0],) + tuple(e[1:]) for e in dst_ents]
+            t = ['syncdest', X('D'), str(len(nodes))]
+            for e in nodes:
+                t += [X(e[0])] + tok(e)
+            t += [str(len(src_ents))]
+            for e in src_ents:
+                t += [X(e[0])] + tok(e)
+            placement = rng.choice(['', '', 'localhost:'])
+            cases.append(dict(i=i, base=base, line=' '.join(t), src=src_ents, dst=dst_ents, placement=placement))
+        model = C.run_model([c['line'] for c in cases])
+        for c, m in zip(cases, model):
+            r = l4.run_cli([c['base'] + '/S/', c['placement'] + c['base'] + '/w/D/'] + M.FLAGS_NO_SKIP, env=sb.env({'RJRSSYNC_TEST_PROMPT_RESPONSE': ''}), timeout=120, cwd=c['base'])
+            snap = fsx.snapshot_world(c['base'] + '/w', 10 ** 30, 10 ** 30 + 1) if r['rc'] == 0 else None
+            nt = r['rc'] == 0 and len(c['src']) + len(c['dst']) > 0
+            run.case((label, c['line'][:3000]), nt, sample=dict(layer='L4', source_entries=len(c['src']), dest_entries=len(c['dst']), rc=r['rc'], model=m[:80]) if c['i'] % 15 == 0 else None)
+            run.count(f'{label}:rc={r["rc"]}:model={m.split(" ")[0]}'); run.cov['traces_validated_against_impl'] += 1
+            want = f'ok fs=[{snap}]' if snap is not None else None
+            if r['rc'] != 0 or m != want:
+                ms = set(m[7:-1].split(';')) if m.startswith('ok fs=[') else set(); is_ = set(snap.split(';')) if snap else set()
+                bad.append(dict(layer='L4', args=['<base>/S/', c['placement'] + '<base>/w/D/'] + M.FLAGS_NO_SKIP, rc=r['rc'], model_outcome=m.split(' ')[0],
+                                only_model=sorted(ms - is_)[:4], only_implementation=sorted(is_ - ms)[:4], src_tree=M.tree_listing(c['base'] + '/S'), dest_tree_after=M.tree_listing(c['base'] + '/w/D'), stderr=r['err'][-300:]))
+            shutil.rmtree(c['base'], ignore_errors=True)
+        run.cov['disagreements_checked'] += len(cases)
+    finally:
+        subprocess.run(['chmod', '-R', 'u+rwx', sb.dir], capture_output=True); sb.close()
+    if bad:
+        run.violation(dict(kind='correspondence-broken', correspondence=f'L4/{label}', disagreeing_cases=len(bad), **bad[0],
+                           note='the model of the destination half of a sync (syncDest, the subject of C01_mirror_fs) and the CLI end in different destination trees'), no_input=True)
+    return bad
